@@ -23,8 +23,10 @@ func (ctx Ctx) declsOrError(stmt ast.Decl) (decls []coq.Decl, err error) {
 			if gooseErr, ok := r.(gooseError); ok {
 				err = gooseErr.err
 			} else {
-				// r is an error from a non-goose error, indicating a bug
-				panic(r)
+				// r is a panic that is not a goose error, indicating a bug in
+				// goose: report it as such for this declaration instead of
+				// taking down the translation of everything else
+				err = ctx.internalError(stmt, r)
 			}
 		}
 	}()
